@@ -1,6 +1,6 @@
 /-
   C20 — source ties for the basic benchmark functions of `benchmarks/_optproblems.py` that are pure
-  elementwise numpy code: `OneMax.f`, `Sphere.f`, `Schwefe1_2.f`, `Rosenbrock.f`, `Rastrigin.f`, `Griewank.f`, `HighConditionedElliptic.f`, `Ackley.f`.
+  elementwise numpy code: `OneMax.f`, `Sphere.f`, `Schwefe1_2.f`, `Rosenbrock.f`, `Rastrigin.f`, `Griewank.f`, `HighConditionedElliptic.f`, `Ackley.f`, `ExpandedScaffers_F6.Scaffes_F6`.
   `TFV/Generated/Src/Bench_*_f.lean` are re-translated from /repo on every run (harness/extract/np2lean.py, floats
   read as field elements, `cos(2πa)` a function parameter); on every rectangular population they compute, row by
   row, the functions of `TFV.Model.Bench` whose lower bounds and optima the C20 theorems prove.
@@ -15,6 +15,7 @@ import TFV.Generated.Src.Bench_Rastrigin_f
 import TFV.Generated.Src.Bench_Griewank_f
 import TFV.Generated.Src.Bench_Elliptic_f
 import TFV.Generated.Src.Bench_Ackley_f
+import TFV.Generated.Src.Bench_ScafferPair
 import TFV.Properties.Bench
 import Mathlib.Tactic.Ring
 import Mathlib.Tactic.NormNum
@@ -279,5 +280,43 @@ theorem C20_src_ackley_optimum (E R cs : Rat → Rat)
 
 example : Bench_Ackley_f (fun u => if u < 0 then 0 else 1) (fun u => u) (fun z => if z = 0 then 1 else 0) { ncols := 2, rows := [[0, 0], [3, 4]] }
     = some [0, 20] := by decide +kernel
+
+theorem zipWith_rows_vec' {α : Type} (G H : α → Rat) (rows : List α) (f : Rat → Rat → Rat) :
+    List.zipWith f (rows.map G) (rows.map H) = rows.map fun r => f (G r) (H r) := by
+  induction rows with
+  | nil => rfl
+  | cons a as ih => simp [ih]
+
+/-- `ExpandedScaffers_F6.Scaffes_F6` = `scafferPair sn2` of the first two entries of every row (an array with fewer than two columns is an
+    IndexError), `sn2 s` standing for `sin²(√s)` -/
+theorem C20_src_scaffer_pair (sn2 : Rat → Rat) (m : Mat) (h2 : 2 ≤ m.ncols) :
+    Bench_ScafferPair sn2 m = some (m.rows.map fun r => scafferPair sn2 (r.getD 0 0) (r.getD 1 0)) := by
+  have h0 : 0 < m.ncols := by omega
+  have h1 : 1 < m.ncols := by omega
+  unfold Bench_ScafferPair
+  simp only [NpQ.col, h0, h1, NpQ.vzip, List.length_map, if_true, List.map_map, bind, Option.bind, pure]
+  congr 1
+  rw [zipWith_rows_vec']
+  simp only [List.map_map]
+  rw [zipWith_rows_vec']
+  simp only [List.map_map]
+  apply List.map_congr_left
+  intro r _
+  simp only [Function.comp, scafferPair]
+  have hs : r.getD 0 0 ^ 2 + r.getD 1 0 ^ 2 = r.getD 0 0 * r.getD 0 0 + r.getD 1 0 * r.getD 1 0 := by ring
+  rw [hs]
+  ring
+
+/-- without a second column the real function raises IndexError; the translated one is `none` -/
+theorem C20_src_scaffer_pair_reject (sn2 : Rat → Rat) (m : Mat) (h2 : m.ncols < 2) : Bench_ScafferPair sn2 m = none := by
+  unfold Bench_ScafferPair
+  by_cases h0 : 0 < m.ncols
+  · have h1 : ¬ 1 < m.ncols := by omega
+    simp [NpQ.col, h0, h1, bind, Option.bind]
+  · simp [NpQ.col, h0, bind, Option.bind]
+
+example : Bench_ScafferPair (fun s => if s = 0 then 0 else 1) { ncols := 2, rows := [[0, 0], [30, 10]] } = some [0, 5 / 8] := by
+  rw [C20_src_scaffer_pair _ _ (by decide)]
+  norm_num [scafferPair]
 
 end TFV.Properties.Src.BenchKernels
